@@ -39,6 +39,19 @@ def strategy(tier):
             m = draw(S.event_model(limits=True))
         else:
             m = draw(S.event_model(limits=False))
+        if decl == "limits" and len(m["state_decl"]) >= 2 and draw(st.integers(0, 3)) == 0:
+            # declaration pattern: a state with an open or negative lower limit given as (name, (lo, hi)), FOLLOWED by a state
+            # given by its bare name (default limits) that a constant-rate removal can push to its lower limit 0
+            first, last = m["state_decl"][0], m["state_decl"][-1]
+            users = [] if ("range" in first or "range" in last) else \
+                [ev for ev in m["events"] if ir.atoms(ev["rate"], "s") & {first["name"]}]
+            # (only when no rate depends on the first state: rates are generated for states that cannot become negative)
+            if "range" not in first and "range" not in last and not users:
+                first["lims"] = draw(st.sampled_from([[None, None], [None, 30], [-3, 3], [-5, None]]))
+                last["lims"] = None
+                m["events"] = m["events"] + [{"rate": ir.C(draw(S.fl(0.3, 2.0, 2))), "rate_kind": "const",
+                                              "trans": [{"kind": "D", "o": last["name"], "d": None,
+                                                         "mag": {"int": draw(st.integers(1, 2))}}]}]
         su = draw(S.stochastic_setup(m, x_hi=draw(st.sampled_from([3, 8, 40]))))
         algo = draw(st.sampled_from(["exact", "tau", "pre_tau", "pre_tau"]))
         drift = None
